@@ -78,6 +78,35 @@ fn main() {
             rustradio::verif::set_consume_hook(Some(on_consume));
             let mut total = 0usize;
             let mut serial = 0u32;
+            if args[4] == "packet-string" {
+                // Text packets, some of them not ASCII: the file holds their
+                // UTF-8 bytes, a newline after each.
+                let texts = ["plain", "Hej p\u{e5} dig", "\u{20ac}", "\u{fffd}x", "73 de \u{1f4e1}"];
+                let (w, r) = new_nocopy_stream::<String>();
+                let mut sink = match NoCopyFileSink::<String>::new(r, path, mode) {
+                    Ok(s) => s,
+                    Err(e) => {
+                        println!("CTOR-ERR {e}");
+                        return;
+                    }
+                };
+                println!("CTOR-OK");
+                std::io::stdout().flush().unwrap();
+                marker("START");
+                let mut k = 0usize;
+                for c in chunks {
+                    for _ in 0..c {
+                        let t = texts[k % texts.len()];
+                        k += 1;
+                        w.push(t.to_string(), &[]);
+                        sink.work().unwrap();
+                        total += t.len() + 1;
+                        marker(&format!("RETURNED {total}"));
+                    }
+                }
+                marker("DONE");
+                return;
+            }
             if is_stream {
                 let (w, r) = new_stream::<u32>();
                 let mut sink = match FileSink::<u32>::new(r, path, mode) {
